@@ -38,6 +38,8 @@ impl Tier {
 pub struct PassInfo {
     pub nontrivial: bool,
     pub classes: Vec<String>,
+    /// number of elementary evaluations this case stands for (0 is counted as 1)
+    pub weight: u64,
 }
 
 #[derive(Debug, Clone)]
@@ -51,6 +53,7 @@ impl Verdict {
         Verdict::Pass(PassInfo {
             nontrivial,
             classes: classes.iter().map(|s| s.to_string()).collect(),
+            weight: 1,
         })
     }
     pub fn fail(sig: impl Into<String>, detail: impl Into<String>) -> Verdict {
@@ -320,7 +323,7 @@ impl Ctx {
                         Verdict::Pass(info) => {
                             if counting {
                                 let mut rep = cell.borrow_mut();
-                                rep.evaluations += 1;
+                                rep.evaluations += info.weight.max(1);
                                 let js = serde_json::to_value(&case).unwrap();
                                 if info.nontrivial {
                                     rep.nontrivial.insert(fnv(js.to_string().as_bytes()));
@@ -414,9 +417,9 @@ impl Ctx {
                             detail: format!("panic: {p}"),
                         },
                     };
-                    rep.evaluations += 1;
                     match v {
                         Verdict::Pass(info) => {
+                            rep.evaluations += info.weight.max(1);
                             let js = serde_json::to_value(case).unwrap();
                             if info.nontrivial {
                                 rep.nontrivial.insert(fnv(js.to_string().as_bytes()));
@@ -429,6 +432,7 @@ impl Ctx {
                             }
                         }
                         Verdict::Fail { sig, detail } => {
+                            rep.evaluations += 1;
                             if self.known.matches(&self.property, name, &sig).is_some() {
                                 let e = rep.known_hits.entry(sig.clone()).or_insert((0, detail.clone()));
                                 e.0 += 1;
@@ -514,10 +518,17 @@ impl Ctx {
             }));
         }
         let mut known_out = vec![];
+        // one line per listed finding (several signatures may match one prefix entry)
+        let mut per_entry: BTreeMap<String, (u64, Vec<String>, String)> = BTreeMap::new();
         for (sig, (n, d, sub)) in &known {
             let k = self.known.matches(&self.property, sub, sig).unwrap();
-            println!("KNOWN-FINDING: property={} {} [signature={} hits={}]", self.property, k.what, sig, n);
-            known_out.push(json!({"signature": sig, "hits": n, "what": k.what, "example": d.lines().next().unwrap_or("")}));
+            let e = per_entry.entry(k.signature.clone()).or_insert((0, vec![], k.what.clone()));
+            e.0 += n;
+            e.1.push(sig.clone());
+            known_out.push(json!({"signature": sig, "listed_as": k.signature, "hits": n, "example": d.lines().next().unwrap_or("")}));
+        }
+        for (entry, (n, sigs, what)) in &per_entry {
+            println!("KNOWN-FINDING: property={} {} [listed signature={} hits={} distinct signatures={}]", self.property, what, entry, n, sigs.len());
         }
         // generator health: required classes must be populated
         let mut unhealthy = vec![];
